@@ -92,9 +92,17 @@ def run(R):
             rest = [p for p in ps if p not in must]
             R.rng.shuffle(rest)
             return must + rest[:max(1, len(rest) // 25)]
+        import math
+        tau = lambda r: 4 + 65536 * r ** 9 / 362880.0
+        rs = lambda x: abs(math.asin(math.sin(x / 65536.0)))
+        rc = lambda x: abs(math.asin(math.cos(x / 65536.0)))
+        guided_s = R.tightest_pieces(h, "sin", ps_sin, lambda x: 65536 * math.sin(x / 65536.0), lambda x: tau(rs(x)), k=10)
+        guided_c = R.tightest_pieces(h, "cos", ps_cos, lambda x: 65536 * math.cos(x / 65536.0), lambda x: tau(rc(x)), k=10)
         ps_sin, ps_cos = pick(ps_sin), pick(ps_cos)
+        ps_sin += [p for p in guided_s if p not in ps_sin]
+        ps_cos += [p for p in guided_c if p not in ps_cos]
         R.bounds.append("quick tier: %d sin pieces and %d cos pieces of <= %d raw values (all pieces containing a branch "
-                        "point, plus a VERIF_SEED-seeded 4%% sample of the rest); the thorough tier covers every raw x in "
+                        "point, a VERIF_SEED-seeded 4%% sample of the rest, and the 10 pieces in which a coarse native grid comes closest to the bound); the thorough tier covers every raw x in "
                         "[-2pi, 2pi]" % (len(ps_sin), len(ps_cos), size))
     else:
         R.bounds.append("every raw x in [-411774, 411774] (823,549 values) for sin and for cos, in %d + %d pieces" % (
